@@ -259,22 +259,23 @@ def to_json(obj: Union[SubclassJSONSerializer, Any]) -> JSON_RETURN_TYPE:
     :return: The JSON string
     """
 
-    if isinstance(obj, leaf_types):
-        return obj
-
-    if isinstance(obj, list_like_classes):
-        return [to_json(item) for item in obj]
-
+    # objects that carry a type tag first: a serializer or a registered type may well subclass int, str or tuple
     if isinstance(obj, SubclassJSONSerializer):
         return obj.to_json()
 
     registered_json_serializer = JSONSerializableTypeRegistry().get_serializer(
         type(obj)
     )
-    if not registered_json_serializer:
-        raise ClassNotSerializableError(type(obj))
+    if registered_json_serializer:
+        return registered_json_serializer(obj)
 
-    return registered_json_serializer(obj)
+    if isinstance(obj, leaf_types):
+        return obj
+
+    if isinstance(obj, list_like_classes):
+        return [to_json(item) for item in obj]
+
+    raise ClassNotSerializableError(type(obj))
 
 
 # %% UUID serialization functions
